@@ -57,6 +57,21 @@ def reflect_plans(rng):
                 cond = ("if", ("cmp", ("id", "note"), "in", ("tuple", [("lit", l) for l in lits])), ("ret", [(lits[0], "1"), (lits[-1], "1")]), ("else", ("ret", [(L("o", quote='"'), "1")])))
                 return gen.Program("e", None, ["u"], cond, {"u": "any", "note": "any"})
             plans.append([build3(["zz", "zz", "zz", "zz"]), build3([first, second, "c", fourth])])
+    # literals that spell a word of the library's own source as a placeholder ({word}, %(word)s, $word, {{word}}): whatever templating the library
+    # uses internally, a literal that happens to contain one of ITS placeholders is still data
+    words = gen.source_words()
+    for w in words:
+        for text in ("{%s}" % w, "X{%s}#" % w, "%%(%s)s" % w, "${%s}" % w):
+            if '"' in text and "'" in text:
+                continue
+            def buildw(sval):
+                lit = gen.lit_str(sval, rng)
+                r = lambda n: ("ret", [(L(n, quote='"'), "1")])
+                cond = ("if", ("cmp", ("id", "note"), "==", ("lit", lit)), ("ret", [(lit, "1"), (L("+str(PWNED()))#", quote='"'), "1")]), ("else", r("o")))
+                return gen.Program("e", lit, ["u"], cond, {"u": "any", "note": "any"})
+            braces = text.startswith("{") or text.startswith("X{")
+            if (braces and "_" in w and w.replace("_", "").isalnum()) or rng.random() < (0.1 if braces else 0.03):
+                plans.append([buildw("zz"), buildw(text)])
     # literals that spell a piece of the generated text itself, alone and with a call appended
     for frag in gen.generated_fragments():
         for text in (frag, frag + "PWNED()", frag + "\rPWNED() #", "x" + frag + "y = PWNED()"):
